@@ -3,8 +3,9 @@
   (`Unambiguous`), which values such a list can carry through its reader (`expressible`), and what
   the round trip must return (`truncate_to_precision`: the value cut to the precision the format
   prints).  Nothing here looks at the parser's or the formatter's branch structure; the only model
-  functions used are field accessors of the value types (C01/C07) and `Zoned.from_local_datetime`
-  (C04) to put a truncated local reading back at an offset.
+  functions used are field accessors of the value types (C01/C07), `Zoned.from_local_datetime`
+  (C04) to put a truncated local reading back at an offset and `Zoned.naive_local` (C04) to ask whether
+  the wall clock of an instant at an offset exists.
 
   Outside the family by definition (`invertible = false`): the print-only items `%::z`, `%:::z`, `%Z`,
   the read-only item `%#z`, `%+`/RFC 2822 (properties C10/C11 own them) and `Item::Error`.
@@ -79,6 +80,10 @@ def invertible : Item → Bool
   | .fixed _ => true
   | .error => false
 
+/-- the items carry the instant only as a timestamp: `%s`, optionally next to an offset item, and
+no date, time or fraction field (`%s`, `%s %z`, `%s%:z`, `%z %s`, with literals and white space) -/
+def stampOnly (c : Carries) : Bool := c == { timestamp := true, offset := c.offset }
+
 /-- a year group (full year, century, two-digit year) from which the reader gets a year -/
 def yearGroup (y _q r : Bool) : Bool := y || r
 /-- a full date in calendar, ordinal, Sunday-week, Monday-week or ISO-week form -/
@@ -144,7 +149,9 @@ def yearTouchesDigits (n : Numeric) : List Item → Bool
 /-- a century without a two-digit year (and without the full year) is not a year -/
 def groupUsable (y q r : Bool) : Bool := !(q && !y && !r)
 
-/-- the item lists of the family, per target type -/
+/-- the item lists of the family, per target type: a date-time needs a full date and a full time (and a
+zone-aware one an offset or a timestamp next to them), or the instant as a timestamp alone
+(`stampOnly`; a timestamp next to an incomplete set of date/time fields is outside the family) -/
 def Unambiguous (is : List Item) (t : Target) : Prop :=
   (∀ it ∈ is, invertible it = true) ∧ separated is = true ∧
   groupUsable (carries is).year (carries is).yearDiv (carries is).yearMod = true ∧
@@ -153,9 +160,9 @@ def Unambiguous (is : List Item) (t : Target) : Prop :=
   match t with
   | .date => fullDate c = true ∧ c.timestamp = false
   | .time => fullTime c = true
-  | .naive => (fullDate c = true ∧ fullTime c = true) ∨ c.timestamp = true
+  | .naive => (fullDate c = true ∧ fullTime c = true) ∨ stampOnly c = true
   | .zoned => ((fullDate c = true ∧ fullTime c = true) ∧ (c.offset = true ∨ c.timestamp = true)) ∨
-      (c.timestamp = true)
+      stampOnly c = true
 
 instance (is : List Item) (t : Target) : Decidable (Unambiguous is t) := by
   unfold Unambiguous; cases t <;> exact inferInstance
@@ -295,7 +302,13 @@ def truncate_to_precision (is : List Item) (v : Value) : Option Value :=
          | .ok (some z') => some (.zoned z')
          | _ => none)
       | .panic => none
-    else some (.zoned ⟨⟨z.utc.date, ⟨z.utc.time.secs, 0⟩⟩, off'⟩)
+    else
+      -- timestamp only: the instant at whole seconds, at the printed offset (UTC without an offset
+      -- item) — provided the wall clock at that offset is still in the supported range
+      let z' : Zoned := ⟨⟨z.utc.date, ⟨z.utc.time.secs, 0⟩⟩, off'⟩
+      match z'.naive_local with
+      | .ok _ => some (.zoned z')
+      | .panic => none
 
 /-! ### the fields of a value, item by item
 
